@@ -17,19 +17,24 @@ NCPU = os.cpu_count() or 4
 
 GUARD = "LIBJWT_VERIF"
 
+# gcc diagnostics that only fire when optimising (the project's own build does not optimise): a tree the project's flags accept must
+# build under the sanitizer flavours too, so these stay warnings instead of -Werror failures
+_OPTW = " ".join("-Wno-error=" + w for w in ("format-truncation", "format-overflow", "stringop-overflow", "stringop-truncation", "maybe-uninitialized",
+                                              "array-bounds", "restrict", "free-nonheap-object", "use-after-free", "dangling-pointer", "null-dereference",
+                                              "return-local-addr", "stringop-overread", "uninitialized", "nonnull", "strict-overflow"))
 FLAVOURS = {
     "asan": dict(cc="gcc", cflags="-O1 -g -fno-omit-frame-pointer -fsanitize=address,undefined "
-                 "-fno-sanitize-recover=all -D" + GUARD,
+                 "-fno-sanitize-recover=all " + _OPTW + " -D" + GUARD,
                  ldflags="-fsanitize=address,undefined"),
-    "tsan": dict(cc="gcc", cflags="-O1 -g -fno-omit-frame-pointer -fsanitize=thread -D" + GUARD,
+    "tsan": dict(cc="gcc", cflags="-O1 -g -fno-omit-frame-pointer -fsanitize=thread " + _OPTW + " -D" + GUARD,
                  ldflags="-fsanitize=thread"),
     "fuzz": dict(cc="clang", cflags="-O1 -g -fno-omit-frame-pointer "
                  "-fsanitize=fuzzer-no-link,address,undefined -fno-sanitize-recover=all "
                  "-fno-sanitize=object-size,null -Wno-error=format-security -Wno-error=format-nonliteral -D" + GUARD,
                  ldflags="-fsanitize=fuzzer,address,undefined"),   # clang's default -Wformat-security is not in the project's gcc flag set: a tree gcc accepts must build here too
-    "ubsan-fast": dict(cc="gcc", cflags="-O2 -g -fsanitize=undefined -fno-sanitize-recover=all -D" + GUARD,
+    "ubsan-fast": dict(cc="gcc", cflags="-O2 -g -fsanitize=undefined -fno-sanitize-recover=all " + _OPTW + " -D" + GUARD,
                        ldflags="-fsanitize=undefined"),
-    "plain": dict(cc="gcc", cflags="-O1 -g -fno-omit-frame-pointer -D" + GUARD, ldflags=""),
+    "plain": dict(cc="gcc", cflags="-O1 -g -fno-omit-frame-pointer " + _OPTW + " -D" + GUARD, ldflags=""),
 }
 
 LIBS = "-ljansson -lgnutls -lssl -lcrypto -lpthread -ldl"
